@@ -1,10 +1,1216 @@
-//! C16 — not built yet.
-use crate::{sx::Sx, Emitter};
+//! C16 — HTTP wire format: cases and implementation outcomes.
+//!
+//! hist = ( (Sunstable..) ((Nver Spath)..) (Ndeprecated)? (Nremoved)? )   versions = index in the
+//!        declaration order of `MatrixVersion`
+//! case = ( Nop ... ):
+//!   1  hist nver chunk            select_path on the 1024 version subsets chunk*1024.. (bit i = version i,
+//!                                 ascending) -> ( 0 S<1024 result codes> )
+//!   2  hist (Nv..)                select_path on one version list -> ( 0 Spath ) | ( 1 code )
+//!   3  hist (Nv..) Sbase (Sarg..) Squery   Metadata::make_endpoint_url -> ( 0 Surl ) | ( 1 code ) | ( 2 )
+//!   5  ((Sk Sv)..)                serde_html_form::to_string then from_str -> ( 0 ( Sqs ((Sk Sv)..) ) )
+//!   6  Squery                     serde_html_form::from_str::<Vec<(String,String)>> -> ( 0 ((Sk Sv)..) )
+//!   7  Nscheme Nvariant Stoken    Metadata::authorization_header -> ( 0 (Sval)? ) | ( 1 code )
+//!   8  Sorigin (Sdest)? Skey Ssig oracle   XMatrix Display, then parse -> ( 0 ( Sheader parse-outcome ) )
+//!   9  Sheader ((Sval Nsn Nkey (Sbytes)?)..)   XMatrix::parse -> ( 0 ( So (Sd)? Sk Ssig ) ) | ( 1 code )
+//!  10  Sheader                    http_auth::ChallengeParser -> ( 0 ( ((Sscheme ((Sk Sv)..))..) Nerr ) )
+//!  11  Sendpoint Ndir ((Sval Nkind)..) hist (Nv..) Nscheme Nvariant Stoken
+//!                                 request / response through the generated conversions and back
+//!  12  hist                       VersionHistory::new -> ( 0 N1 ) | ( 2 )
+use std::fmt::Debug;
 
-pub fn run(_tier: &str, _seed: u64, _em: &mut Emitter) {}
+use http::Method;
+use ruma_common::{
+    api::{
+        error::IntoHttpError, AuthScheme, IncomingRequest, IncomingResponse, MatrixVersion, Metadata,
+        OutgoingRequest, OutgoingResponse, SendAccessToken, VersionHistory,
+    },
+    serde::Base64,
+    OwnedServerName, OwnedServerSigningKeyId,
+};
+use ruma_federation_api::authentication::{XMatrix, XMatrixParseError};
 
-pub fn replay(_case: &Sx) -> Option<Sx> {
-    None
+use crate::{
+    rng::Rng,
+    sx::{guarded, Sx},
+    Emitter,
+};
+
+include!("c16_endpoints.rs");
+include!("c16_synthetic.rs");
+include!("c16_real.rs");
+
+// ---------------------------------------------------------------------------------------------
+// Versions and histories
+// ---------------------------------------------------------------------------------------------
+
+/// Every `MatrixVersion` the compiled enum knows a name for, in `Ord` order.
+pub fn versions() -> Vec<MatrixVersion> {
+    let mut v: Vec<MatrixVersion> = vec![];
+    for s in ["r0.2.0", "r0.5.0"] {
+        if let Ok(x) = MatrixVersion::try_from(s) {
+            if !v.contains(&x) {
+                v.push(x);
+            }
+        }
+    }
+    for major in 1..=3u32 {
+        for minor in 0..=60u32 {
+            if let Ok(x) = MatrixVersion::try_from(format!("v{major}.{minor}").as_str()) {
+                if !v.contains(&x) {
+                    v.push(x);
+                }
+            }
+        }
+    }
+    v.sort();
+    v
 }
 
-pub fn dump(_dir: &str) {}
+fn vidx(all: &[MatrixVersion], v: MatrixVersion) -> usize {
+    all.iter().position(|x| *x == v).expect("version not enumerated")
+}
+
+#[derive(Clone, Debug, PartialEq, Eq)]
+pub struct Hist {
+    pub unstable: Vec<String>,
+    pub stable: Vec<(usize, String)>,
+    pub deprecated: Option<usize>,
+    pub removed: Option<usize>,
+}
+
+impl Hist {
+    fn of(all: &[MatrixVersion], h: &VersionHistory) -> Hist {
+        Hist {
+            unstable: h.unstable_paths().map(str::to_owned).collect(),
+            stable: h.stable_paths().map(|(v, p)| (vidx(all, v), p.to_owned())).collect(),
+            deprecated: h.deprecated_in().map(|v| vidx(all, v)),
+            removed: h.removed_in().map(|v| vidx(all, v)),
+        }
+    }
+    fn all_paths(&self) -> Vec<&str> {
+        self.unstable.iter().map(String::as_str).chain(self.stable.iter().map(|(_, p)| p.as_str())).collect()
+    }
+    fn sx(&self) -> Sx {
+        Sx::L(vec![
+            Sx::L(self.unstable.iter().map(|p| Sx::s(p)).collect()),
+            Sx::L(self.stable.iter().map(|(v, p)| Sx::L(vec![Sx::n(*v as i64), Sx::s(p)])).collect()),
+            Sx::opt(self.deprecated.map(|v| Sx::n(v as i64))),
+            Sx::opt(self.removed.map(|v| Sx::n(v as i64))),
+        ])
+    }
+    fn from_sx(x: &Sx) -> Option<Hist> {
+        let l = x.as_list()?;
+        let unstable = l.first()?.as_list()?.iter().map(Sx::as_string).collect::<Option<Vec<_>>>()?;
+        let stable = l
+            .get(1)?
+            .as_list()?
+            .iter()
+            .map(|e| {
+                let e = e.as_list()?;
+                Some((usize::try_from(e.first()?.as_int()?).ok()?, e.get(1)?.as_string()?))
+            })
+            .collect::<Option<Vec<_>>>()?;
+        let o = |x: &Sx| -> Option<Option<usize>> {
+            Some(match x.as_opt()? {
+                None => None,
+                Some(v) => Some(usize::try_from(v.as_int()?).ok()?),
+            })
+        };
+        Some(Hist { unstable, stable, deprecated: o(l.get(2)?)?, removed: o(l.get(3)?)? })
+    }
+    /// `VersionHistory::new` at run time (the argument slices are leaked to get `'static`).
+    /// Panics exactly when `new` does.
+    fn build(&self, all: &[MatrixVersion]) -> VersionHistory {
+        let leak_str = |s: &str| -> &'static str { Box::leak(s.to_owned().into_boxed_str()) };
+        let unstable: Vec<&'static str> = self.unstable.iter().map(|s| leak_str(s)).collect();
+        let stable: Vec<(MatrixVersion, &'static str)> = self.stable.iter().map(|(v, p)| (all[*v], leak_str(p))).collect();
+        VersionHistory::new(
+            Box::leak(unstable.into_boxed_slice()),
+            Box::leak(stable.into_boxed_slice()),
+            self.deprecated.map(|v| all[v]),
+            self.removed.map(|v| all[v]),
+        )
+    }
+    fn versions_in_range(&self, n: usize) -> bool {
+        self.stable.iter().all(|(v, _)| *v < n) && self.deprecated.map_or(true, |v| v < n) && self.removed.map_or(true, |v| v < n)
+    }
+}
+
+macro_rules! collect_meta {
+    ($( $($seg:ident)::+ ),* $(,)?) => {
+        vec![ $( (stringify!($($seg)::+).split_whitespace().collect::<String>(), <$($seg)::+ ::Request as OutgoingRequest>::METADATA) ),* ]
+    };
+}
+
+#[allow(deprecated)]
+pub fn endpoints() -> Vec<(String, Metadata)> {
+    for_each_endpoint!(collect_meta)
+}
+
+fn meta_of(history: VersionHistory) -> Metadata {
+    Metadata { method: Method::GET, rate_limited: false, authentication: AuthScheme::None, history }
+}
+
+fn into_err_code(e: &IntoHttpError) -> i128 {
+    match e {
+        IntoHttpError::EndpointRemoved(_) => 1,
+        IntoHttpError::NoUnstablePath => 2,
+        IntoHttpError::NeedsAuthentication => 3,
+        IntoHttpError::Header(_) => 4,
+        _ => 9,
+    }
+}
+
+/// `select_path` is private; it is observed through `make_endpoint_url` with every placeholder
+/// given its own text as the argument (`:name` contains nothing the encode set touches), so the
+/// URL that comes back is the selected path.
+fn select(meta: &Metadata, h: &Hist, vs: &[MatrixVersion]) -> Result<String, i128> {
+    let first = h.all_paths().first().map(|p| p.to_string()).unwrap_or_default();
+    let args: Vec<&str> = first.split('/').filter(|s| s.starts_with(':')).collect();
+    let dargs: Vec<&dyn std::fmt::Display> = args.iter().map(|a| a as &dyn std::fmt::Display).collect();
+    match meta.make_endpoint_url(vs, "", &dargs, "") {
+        Ok(u) => Ok(u),
+        Err(IntoHttpError::EndpointRemoved(v)) => {
+            if Some(v) == meta.history.removed_in() {
+                Err(1)
+            } else {
+                Err(8)
+            }
+        }
+        Err(e) => Err(into_err_code(&e)),
+    }
+}
+
+const CHUNK: usize = 1024;
+
+fn op1(all: &[MatrixVersion], h: &Hist, chunk: usize) -> Sx {
+    let h = h.clone();
+    let all = all.to_vec();
+    guarded(move || {
+        let meta = meta_of(h.build(&all));
+        let paths = h.all_paths();
+        let mut out = Vec::with_capacity(CHUNK);
+        for i in 0..CHUNK {
+            let mask = chunk * CHUNK + i;
+            let vs: Vec<MatrixVersion> = (0..all.len()).filter(|b| mask >> b & 1 == 1).map(|b| all[b]).collect();
+            let code = match std::panic::catch_unwind(std::panic::AssertUnwindSafe(|| select(&meta, &h, &vs))) {
+                Ok(Ok(p)) => paths.iter().position(|q| *q == p).map_or(252, |i| i.min(250) as u8),
+                Ok(Err(1)) => 254,
+                Ok(Err(2)) => 255,
+                Ok(Err(_)) => 252,
+                Err(_) => 253,
+            };
+            out.push(code);
+        }
+        Sx::ok(Sx::S(out))
+    })
+}
+
+fn op2(all: &[MatrixVersion], h: &Hist, vs: &[usize]) -> Sx {
+    let (h, all, vs) = (h.clone(), all.to_vec(), vs.to_vec());
+    guarded(move || {
+        let meta = meta_of(h.build(&all));
+        let vs: Vec<MatrixVersion> = vs.iter().map(|v| all[*v]).collect();
+        match select(&meta, &h, &vs) {
+            Ok(p) => Sx::ok(Sx::s(&p)),
+            Err(c) => Sx::err(c),
+        }
+    })
+}
+
+fn op3(all: &[MatrixVersion], h: &Hist, vs: &[usize], base: &str, args: &[String], query: &str) -> Sx {
+    let (h, all, vs, base, args, query) = (h.clone(), all.to_vec(), vs.to_vec(), base.to_owned(), args.to_vec(), query.to_owned());
+    guarded(move || {
+        let meta = meta_of(h.build(&all));
+        let vs: Vec<MatrixVersion> = vs.iter().map(|v| all[*v]).collect();
+        let dargs: Vec<&dyn std::fmt::Display> = args.iter().map(|a| a as &dyn std::fmt::Display).collect();
+        match meta.make_endpoint_url(&vs, &base, &dargs, &query) {
+            Ok(u) => Sx::ok(Sx::s(&u)),
+            Err(e) => Sx::err(into_err_code(&e)),
+        }
+    })
+}
+
+fn op12(all: &[MatrixVersion], h: &Hist) -> Sx {
+    let (h, all) = (h.clone(), all.to_vec());
+    guarded(move || {
+        let _ = h.build(&all);
+        Sx::ok(Sx::n(1))
+    })
+}
+
+// ---------------------------------------------------------------------------------------------
+// Query layer
+// ---------------------------------------------------------------------------------------------
+fn pairs_sx(p: &[(String, String)]) -> Sx {
+    Sx::L(p.iter().map(|(k, v)| Sx::L(vec![Sx::s(k), Sx::s(v)])).collect())
+}
+
+fn pairs_from_sx(x: &Sx) -> Option<Vec<(String, String)>> {
+    x.as_list()?
+        .iter()
+        .map(|e| {
+            let e = e.as_list()?;
+            Some((e.first()?.as_string()?, e.get(1)?.as_string()?))
+        })
+        .collect()
+}
+
+fn op5(pairs: &[(String, String)]) -> Sx {
+    let pairs = pairs.to_vec();
+    guarded(move || {
+        use ruma_common::exports::serde_html_form;
+        let qs = match serde_html_form::to_string(&pairs) {
+            Ok(q) => q,
+            Err(_) => return Sx::err(0),
+        };
+        match serde_html_form::from_str::<Vec<(String, String)>>(&qs) {
+            Ok(back) => Sx::ok(Sx::L(vec![Sx::s(&qs), pairs_sx(&back)])),
+            Err(_) => Sx::ok(Sx::L(vec![Sx::s(&qs), Sx::n(-1)])),
+        }
+    })
+}
+
+/// Is the lossy UTF-8 step of form_urlencoded::parse the identity on this query string?
+fn query_lossless(q: &str) -> bool {
+    q.split('&').all(|piece| {
+        let piece = piece.replace('+', " ");
+        let mut it = piece.splitn(2, '=');
+        let k = it.next().unwrap_or("");
+        let v = it.next().unwrap_or("");
+        [k, v].iter().all(|s| String::from_utf8(percent_encoding::percent_decode_str(s).collect::<Vec<u8>>()).is_ok())
+    })
+}
+
+fn op6(q: &str) -> Sx {
+    let q = q.to_owned();
+    guarded(move || {
+        use ruma_common::exports::serde_html_form;
+        match serde_html_form::from_str::<Vec<(String, String)>>(&q) {
+            Ok(back) => Sx::ok(pairs_sx(&back)),
+            Err(_) => Sx::err(0),
+        }
+    })
+}
+
+// ---------------------------------------------------------------------------------------------
+// Authorization header
+// ---------------------------------------------------------------------------------------------
+const SCHEMES: [AuthScheme; 6] = [
+    AuthScheme::None,
+    AuthScheme::AccessToken,
+    AuthScheme::AccessTokenOptional,
+    AuthScheme::AppserviceToken,
+    AuthScheme::AppserviceTokenOptional,
+    AuthScheme::ServerSignatures,
+];
+
+fn scheme_idx(a: AuthScheme) -> usize {
+    SCHEMES.iter().position(|s| *s == a).expect("unknown AuthScheme")
+}
+
+fn sat(variant: usize, tok: &str) -> SendAccessToken<'_> {
+    match variant {
+        0 => SendAccessToken::IfRequired(tok),
+        1 => SendAccessToken::Always(tok),
+        2 => SendAccessToken::Appservice(tok),
+        _ => SendAccessToken::None,
+    }
+}
+
+fn op7(scheme: usize, variant: usize, tok: &str) -> Sx {
+    let tok = tok.to_owned();
+    guarded(move || {
+        let meta = Metadata {
+            method: Method::GET,
+            rate_limited: false,
+            authentication: SCHEMES[scheme % 6],
+            history: VersionHistory::new(&["/x"], &[], None, None),
+        };
+        match meta.authorization_header(sat(variant, &tok)) {
+            Ok(None) => Sx::ok(Sx::L(vec![])),
+            Ok(Some((name, val))) => {
+                if name != http::header::AUTHORIZATION {
+                    return Sx::err(8);
+                }
+                Sx::ok(Sx::L(vec![Sx::S(val.as_bytes().to_vec())]))
+            }
+            Err(e) => Sx::err(into_err_code(&e)),
+        }
+    })
+}
+
+// ---------------------------------------------------------------------------------------------
+// X-Matrix
+// ---------------------------------------------------------------------------------------------
+fn xerr_code(e: &XMatrixParseError) -> i128 {
+    match e {
+        XMatrixParseError::ParseStr(_) => 1,
+        XMatrixParseError::NotFound => 2,
+        XMatrixParseError::ParseId(_) => 3,
+        XMatrixParseError::ParseBase64(_) => 4,
+        XMatrixParseError::MissingParameter(_) => 5,
+        XMatrixParseError::DuplicateParameter(_) => 6,
+        _ => 9,
+    }
+}
+
+fn xm_sx(x: &XMatrix) -> Sx {
+    Sx::L(vec![
+        Sx::s(x.origin.as_str()),
+        Sx::opt(x.destination.as_ref().map(|d| Sx::s(d.as_str()))),
+        Sx::s(x.key.as_str()),
+        Sx::S(x.sig.as_bytes().to_vec()),
+    ])
+}
+
+fn xparse(s: &str) -> Sx {
+    match XMatrix::parse(s) {
+        Ok(x) => Sx::ok(xm_sx(&x)),
+        Err(e) => Sx::err(xerr_code(&e)),
+    }
+}
+
+fn op8(origin: &str, dest: Option<&str>, key: &str, sig: &[u8]) -> Option<(Sx, Sx)> {
+    let origin: OwnedServerName = origin.try_into().ok()?;
+    let dest: Option<OwnedServerName> = match dest {
+        None => None,
+        Some(d) => Some(d.try_into().ok()?),
+    };
+    let key: OwnedServerSigningKeyId = key.try_into().ok()?;
+    let sig = sig.to_vec();
+    let r = std::panic::catch_unwind(move || {
+        let mut x = XMatrix::new(origin.clone(), origin, key, Base64::new(sig));
+        x.destination = dest;
+        let s = x.to_string();
+        (Sx::ok(Sx::L(vec![Sx::s(&s), xparse(&s)])), xm_oracle(&s))
+    });
+    Some(r.unwrap_or_else(|_| (Sx::panic(), Sx::L(vec![]))))
+}
+
+/// What the real validators say about the parameter values of the X-Matrix challenge of `s`.
+fn xm_oracle(s: &str) -> Sx {
+    let mut rows = vec![];
+    let r = std::panic::catch_unwind(|| {
+        let mut vals: Vec<String> = vec![];
+        for ch in http_auth::ChallengeParser::new(s) {
+            let Ok(ch) = ch else { break };
+            if ch.scheme.eq_ignore_ascii_case("X-Matrix") {
+                for (_, v) in &ch.params {
+                    vals.push(v.to_unescaped());
+                }
+                break;
+            }
+        }
+        vals
+    });
+    for v in r.unwrap_or_default() {
+        let sn = OwnedServerName::try_from(v.as_str()).is_ok();
+        let key = OwnedServerSigningKeyId::try_from(v.as_str()).is_ok();
+        let b64 = Base64::<ruma_common::serde::base64::Standard>::parse(&v).ok();
+        rows.push(Sx::L(vec![Sx::s(&v), Sx::b(sn), Sx::b(key), Sx::opt(b64.map(|b| Sx::S(b.as_bytes().to_vec())))]));
+    }
+    Sx::L(rows)
+}
+
+fn op9(s: &str) -> Sx {
+    let s = s.to_owned();
+    guarded(move || xparse(&s))
+}
+
+fn op10(s: &str) -> Sx {
+    let s = s.to_owned();
+    guarded(move || {
+        let mut chs = vec![];
+        let mut err = 0;
+        for ch in http_auth::ChallengeParser::new(&s) {
+            match ch {
+                Ok(c) => chs.push(Sx::L(vec![
+                    Sx::s(c.scheme),
+                    Sx::L(c.params.iter().map(|(k, v)| Sx::L(vec![Sx::s(k), Sx::s(&v.to_unescaped())])).collect()),
+                ])),
+                Err(_) => {
+                    err = 1;
+                    break;
+                }
+            }
+        }
+        Sx::ok(Sx::L(vec![Sx::L(chs), Sx::n(err)]))
+    })
+}
+
+// ---------------------------------------------------------------------------------------------
+// Generated conversions: request -> http::Request -> request, response likewise
+// ---------------------------------------------------------------------------------------------
+const BASE: &str = "https://hs.example";
+
+/// Standard routing: the URL path is cut at `/`, a template segment starting with `:` captures
+/// the percent-decoded segment, any other segment must be equal.
+fn route(template: &str, path: &str) -> Option<Vec<String>> {
+    let t: Vec<&str> = template.split('/').collect();
+    let p: Vec<&str> = path.split('/').collect();
+    if t.len() != p.len() {
+        return None;
+    }
+    let mut args = vec![];
+    for (a, b) in t.iter().zip(p.iter()) {
+        if a.starts_with(':') {
+            args.push(percent_encoding::percent_decode_str(b).decode_utf8().ok()?.into_owned());
+        } else if a != b {
+            return None;
+        }
+    }
+    Some(args)
+}
+
+fn http_req_sig(r: &http::Request<Vec<u8>>) -> (String, String, Vec<(String, Vec<u8>)>, Vec<u8>) {
+    let mut hs: Vec<(String, Vec<u8>)> = r.headers().iter().map(|(k, v)| (k.as_str().to_owned(), v.as_bytes().to_vec())).collect();
+    hs.sort();
+    (r.method().to_string(), r.uri().to_string(), hs, r.body().clone())
+}
+
+fn http_resp_sig(r: &http::Response<Vec<u8>>) -> (u16, Vec<(String, Vec<u8>)>, Vec<u8>) {
+    let mut hs: Vec<(String, Vec<u8>)> = r.headers().iter().map(|(k, v)| (k.as_str().to_owned(), v.as_bytes().to_vec())).collect();
+    hs.sort();
+    (r.status().as_u16(), hs, r.body().clone())
+}
+
+pub struct ReqCtx<'a> {
+    pub all: &'a [MatrixVersion],
+    pub vs: &'a [usize],
+    pub variant: usize,
+    pub token: &'a str,
+}
+
+/// ( 0 ( Smethod_meta Smethod_http Surlpath (Sarg..) (Sauth)? Neq Nreenc ) ) | ( 1 code )
+pub fn rt_request<R>(req: R, cx: &ReqCtx<'_>) -> Sx
+where
+    R: OutgoingRequest + IncomingRequest + Debug,
+{
+    let meta = <R as OutgoingRequest>::METADATA;
+    let vs: Vec<MatrixVersion> = cx.vs.iter().map(|v| cx.all[*v]).collect();
+    let dbg1 = format!("{req:?}");
+    let h1: http::Request<Vec<u8>> = match req.try_into_http_request(BASE, sat(cx.variant, cx.token), &vs) {
+        Ok(h) => h,
+        Err(IntoHttpError::EndpointRemoved(_)) => return Sx::err(1),
+        Err(e) => return Sx::err(into_err_code(&e)),
+    };
+    let path = h1.uri().path().to_owned();
+    let auth = h1.headers().get(http::header::AUTHORIZATION).map(|v| Sx::S(v.as_bytes().to_vec()));
+    // the template whose routing the server would have registered: any path of the history
+    let args = meta.history.all_paths().find_map(|t| route(t, &path));
+    let sig1 = http_req_sig(&h1);
+    let head = |args: &[String], eq: bool, re: bool| {
+        Sx::ok(Sx::L(vec![
+            Sx::s(meta.method.as_str()),
+            Sx::s(&sig1.0),
+            Sx::s(&path),
+            Sx::L(args.iter().map(|a| Sx::s(a)).collect()),
+            Sx::opt(auth.clone()),
+            Sx::b(eq),
+            Sx::b(re),
+        ]))
+    };
+    let Some(args) = args else { return head(&[], false, false) };
+    let debug = std::env::var_os("C16_DEBUG").is_some();
+    if debug {
+        eprintln!("request  : {dbg1}\nhttp     : {sig1:?}\nargs     : {args:?}");
+    }
+    let req2 = match R::try_from_http_request(h1, &args) {
+        Ok(r) => r,
+        Err(e) => {
+            if debug {
+                eprintln!("decode error: {e}");
+            }
+            return head(&args, false, false);
+        }
+    };
+    let dbg2 = format!("{req2:?}");
+    if debug {
+        eprintln!("decoded  : {dbg2}");
+    }
+    let re = match req2.try_into_http_request::<Vec<u8>>(BASE, sat(cx.variant, cx.token), &vs) {
+        Ok(h2) => http_req_sig(&h2) == sig1,
+        Err(_) => false,
+    };
+    head(&args, dbg1 == dbg2, re)
+}
+
+/// ( 0 ( Neq Nreenc ) ) | ( 1 code )
+pub fn rt_response<R>(resp: R) -> Sx
+where
+    R: OutgoingResponse + IncomingResponse + Debug,
+{
+    let dbg1 = format!("{resp:?}");
+    let h1: http::Response<Vec<u8>> = match resp.try_into_http_response() {
+        Ok(h) => h,
+        Err(e) => return Sx::err(into_err_code(&e)),
+    };
+    let sig1 = http_resp_sig(&h1);
+    let debug = std::env::var_os("C16_DEBUG").is_some();
+    if debug {
+        eprintln!("response : {dbg1}\nhttp     : {sig1:?}");
+    }
+    let resp2 = match R::try_from_http_response(h1) {
+        Ok(r) => r,
+        Err(e) => {
+            if debug {
+                eprintln!("decode error: {e}");
+            }
+            return Sx::ok(Sx::L(vec![Sx::b(false), Sx::b(false)]));
+        }
+    };
+    let dbg2 = format!("{resp2:?}");
+    if debug {
+        eprintln!("decoded  : {dbg2}");
+    }
+    let re = match resp2.try_into_http_response::<Vec<u8>>() {
+        Ok(h2) => http_resp_sig(&h2) == sig1,
+        Err(_) => false,
+    };
+    Sx::ok(Sx::L(vec![Sx::b(dbg1 == dbg2), Sx::b(re)]))
+}
+
+/// One entry of the endpoint table: name, number of string values it consumes, metadata,
+/// request builder and response builder (None when the strings do not make valid field values).
+pub struct Ep {
+    pub name: &'static str,
+    pub nvals: usize,
+    pub meta: fn() -> Metadata,
+    pub req: fn(&[String], &ReqCtx<'_>) -> Option<Sx>,
+    pub resp: fn(&[String]) -> Option<Sx>,
+}
+
+fn ep_table() -> Vec<Ep> {
+    let mut t = synthetic_eps();
+    t.extend(real_eps());
+    t
+}
+
+fn op11(eps: &[Ep], all: &[MatrixVersion], name: &str, dir: usize, vals: &[String], vs: &[usize], variant: usize, token: &str) -> Option<Sx> {
+    let ep = eps.iter().find(|e| e.name == name)?;
+    if vals.len() != ep.nvals {
+        return None;
+    }
+    let vals = vals.to_vec();
+    let (all, vs, token) = (all.to_vec(), vs.to_vec(), token.to_owned());
+    let (req, resp) = (ep.req, ep.resp);
+    let out = std::panic::catch_unwind(move || {
+        if dir == 0 {
+            req(&vals, &ReqCtx { all: &all, vs: &vs, variant, token: &token })
+        } else {
+            resp(&vals)
+        }
+    });
+    match out {
+        Ok(o) => o,
+        Err(_) => Some(Sx::panic()),
+    }
+}
+
+/// What kind of field the i-th string value of an endpoint feeds, where that matters for the
+/// known findings: 2 = optional query field, 3 = header field, 6 = optional Content-Type header
+/// of a response; 0 = anything else (path, required query, body, ...).
+fn field_kind(name: &str, dir: usize, i: usize) -> i64 {
+    match (name, dir, i) {
+        ("synthetic::all", 0, 3) | ("synthetic::get", 0, 1) => 2,
+        ("synthetic::all", 0, 5 | 6) | ("synthetic::all", 1, 0 | 1) => 3,
+        ("synthetic::raw", 0, 3) | ("synthetic::raw", 1, 0 | 1) => 3,
+        ("client::user_directory::search_users", 0, 1) => 3,
+        ("client::media::get_content", 1, 1) => 6,
+        ("client::message::get_message_events", 0, 1 | 2) => 2,
+        ("client::relations::get_relating_events", 0, 2 | 3) => 2,
+        ("client::space::get_hierarchy", 0, 1) | ("client::threads::get_threads", 0, 1) => 2,
+        ("client::directory::get_public_rooms", 0, 0) | ("federation::directory::get_public_rooms", 0, 0) => 2,
+        ("client::search::search_events", 0, 1) => 2,
+        _ => 0,
+    }
+}
+
+fn case11(ep: &Ep, all: &[MatrixVersion], dir: usize, vals: &[String], vs: &[usize], variant: usize, token: &str) -> Sx {
+    let meta = (ep.meta)();
+    Sx::L(vec![
+        Sx::n(11),
+        Sx::s(ep.name),
+        Sx::n(dir as i64),
+        Sx::L(vals.iter().enumerate().map(|(i, v)| Sx::L(vec![Sx::s(v), Sx::n(field_kind(ep.name, dir, i))])).collect()),
+        Hist::of(all, &meta.history).sx(),
+        Sx::L(vs.iter().map(|v| Sx::n(*v as i64)).collect()),
+        Sx::n(scheme_idx(meta.authentication) as i64),
+        Sx::n(variant as i64),
+        Sx::s(token),
+    ])
+}
+
+// ---------------------------------------------------------------------------------------------
+// Dump for the translator
+// ---------------------------------------------------------------------------------------------
+pub fn dump(dir: &str) {
+    let all = versions();
+    let eps = endpoints();
+    let vj: Vec<serde_json::Value> =
+        all.iter().map(|v| serde_json::json!({"name": format!("{v:?}"), "str": v.as_str()})).collect();
+    for w in all.windows(2) {
+        assert!(w[0] < w[1]);
+    }
+    let ej: Vec<serde_json::Value> = eps
+        .iter()
+        .map(|(name, m)| {
+            let h = Hist::of(&all, &m.history);
+            serde_json::json!({
+                "module": name, "method": m.method.as_str(), "auth": format!("{:?}", m.authentication),
+                "unstable": h.unstable, "stable": h.stable, "deprecated": h.deprecated, "removed": h.removed,
+            })
+        })
+        .collect();
+    // The path percent-encode set, read off the compiled code.
+    let meta = meta_of(VersionHistory::new(&["/:x"], &[], None, None));
+    let mut encoded = vec![];
+    for b in 0u8..128 {
+        let arg = (b as char).to_string();
+        let url = meta.make_endpoint_url(&[], "", &[&arg], "").expect("one unstable path");
+        let plain = format!("/{arg}");
+        let enc = format!("/%{b:02X}");
+        if url == enc {
+            encoded.push(b);
+        } else {
+            assert_eq!(url, plain, "byte {b} neither literal nor %XX");
+        }
+    }
+    let non_ascii = ["\u{e9}", "\u{20ac}", "\u{1F600}", "\u{80}"].iter().all(|s| {
+        let url = meta.make_endpoint_url(&[], "", &[s], "").unwrap();
+        let want: String = s.bytes().map(|b| format!("%{b:02X}")).collect();
+        url == format!("/{want}")
+    });
+    let j = serde_json::json!({"versions": vj, "endpoints": ej, "percent": {"encoded": encoded, "non_ascii_encoded": non_ascii}});
+    std::fs::write(format!("{dir}/c16.json"), serde_json::to_string_pretty(&j).unwrap()).unwrap();
+}
+
+// ---------------------------------------------------------------------------------------------
+// Replay
+// ---------------------------------------------------------------------------------------------
+fn ints(x: &Sx) -> Option<Vec<usize>> {
+    x.as_list()?.iter().map(|v| usize::try_from(v.as_int()?).ok()).collect()
+}
+
+fn strs(x: &Sx) -> Option<Vec<String>> {
+    x.as_list()?.iter().map(Sx::as_string).collect()
+}
+
+pub fn replay(case: &Sx) -> Option<Sx> {
+    let all = versions();
+    let l = case.as_list()?;
+    let op = l.first()?.as_int()?;
+    let hist = |i: usize| -> Option<Hist> {
+        let h = Hist::from_sx(l.get(i)?)?;
+        h.versions_in_range(all.len()).then_some(h)
+    };
+    let in_range = |vs: &[usize]| vs.iter().all(|v| *v < all.len());
+    match op {
+        1 => {
+            let h = hist(1)?;
+            if l.get(2)?.as_int()? != all.len() as i128 {
+                return None;
+            }
+            Some(op1(&all, &h, usize::try_from(l.get(3)?.as_int()?).ok()?))
+        }
+        2 => {
+            let h = hist(1)?;
+            let vs = ints(l.get(2)?)?;
+            if !in_range(&vs) {
+                return None;
+            }
+            Some(op2(&all, &h, &vs))
+        }
+        3 => {
+            let h = hist(1)?;
+            let vs = ints(l.get(2)?)?;
+            if !in_range(&vs) {
+                return None;
+            }
+            Some(op3(&all, &h, &vs, &l.get(3)?.as_string()?, &strs(l.get(4)?)?, &l.get(5)?.as_string()?))
+        }
+        5 => Some(op5(&pairs_from_sx(l.get(1)?)?)),
+        6 => Some(op6(&l.get(1)?.as_string()?)),
+        7 => Some(op7(
+            usize::try_from(l.get(1)?.as_int()?).ok()?,
+            usize::try_from(l.get(2)?.as_int()?).ok()?,
+            &l.get(3)?.as_string()?,
+        )),
+        8 => {
+            let d = match l.get(2)?.as_opt()? {
+                None => None,
+                Some(d) => Some(d.as_string()?),
+            };
+            op8(&l.get(1)?.as_string()?, d.as_deref(), &l.get(3)?.as_string()?, l.get(4)?.as_bytes()?).map(|(out, _)| out)
+        }
+        9 => Some(op9(&l.get(1)?.as_string()?)),
+        10 => Some(op10(&l.get(1)?.as_string()?)),
+        11 => {
+            let vs = ints(l.get(5)?)?;
+            if !in_range(&vs) {
+                return None;
+            }
+            op11(
+                &ep_table(),
+                &all,
+                &l.get(1)?.as_string()?,
+                usize::try_from(l.get(2)?.as_int()?).ok()?,
+                &l.get(3)?.as_list()?.iter().map(|p| p.as_list()?.first()?.as_string()).collect::<Option<Vec<_>>>()?,
+                &vs,
+                usize::try_from(l.get(7)?.as_int()?).ok()?,
+                &l.get(8)?.as_string()?,
+            )
+        }
+        12 => Some(op12(&all, &hist(1)?)),
+        _ => None,
+    }
+}
+
+// ---------------------------------------------------------------------------------------------
+// Generators
+// ---------------------------------------------------------------------------------------------
+/// The hostile alphabet of the property text.
+const HOSTILE: &[&str] = &["/", "%", "?", "#", "+", "&", "=", " ", "\u{e9}", "a"];
+
+fn hostile_strings(max_len: usize) -> Vec<String> {
+    let mut out = vec![String::new()];
+    let mut layer = vec![String::new()];
+    for _ in 0..max_len {
+        let mut next = vec![];
+        for s in &layer {
+            for c in HOSTILE {
+                next.push(format!("{s}{c}"));
+            }
+        }
+        out.extend(next.iter().cloned());
+        layer = next;
+    }
+    out
+}
+
+fn pk<'a>(r: &mut Rng, xs: &[&'a str]) -> &'a str {
+    xs[r.below(xs.len())]
+}
+
+fn rand_hostile(r: &mut Rng, max: usize) -> String {
+    let n = r.below(max + 1);
+    let mut s = String::new();
+    for _ in 0..n {
+        match r.below(12) {
+            0 => s.push_str("%41"),
+            1 => s.push_str("%2F"),
+            2 => s.push(*r.pick(&['\u{1F600}', '\u{0}', '\u{7f}', '"', '<', '`', '{', '\\', '^', '[', '|', ';', ':', '@', '\u{80}', '\u{fffd}', '\n'])),
+            _ => s.push_str(pk(r, HOSTILE)),
+        }
+    }
+    s
+}
+
+fn rand_versions(r: &mut Rng, n: usize) -> Vec<usize> {
+    let k = r.below(5);
+    (0..k).map(|_| r.below(n)).collect()
+}
+
+fn synth_paths(r: &mut Rng, nargs: usize, tag: &str) -> String {
+    let mut p = format!("/_m/{tag}");
+    for i in 0..nargs {
+        if r.chance(1, 2) {
+            p.push_str("/lit");
+        }
+        p.push_str(&format!("/:a{i}"));
+    }
+    if r.chance(1, 3) {
+        p.push_str("/end");
+    }
+    p
+}
+
+/// A history that `VersionHistory::new` accepts (mostly), over `n` versions.
+fn gen_hist(r: &mut Rng, n: usize, well_formed: bool) -> Hist {
+    let nargs = r.below(3);
+    let nun = r.below(3);
+    let mut vers: Vec<usize> = (0..n).filter(|_| r.chance(1, 4)).collect();
+    vers.truncate(4);
+    if nun == 0 && vers.is_empty() {
+        vers.push(r.below(n));
+    }
+    let unstable = (0..nun).map(|i| synth_paths(r, nargs, &format!("u{i}"))).collect();
+    let stable: Vec<(usize, String)> = vers.iter().map(|v| (*v, synth_paths(r, nargs, &format!("s{v}")))).collect();
+    let last = stable.last().map(|(v, _)| *v);
+    let mut deprecated = None;
+    let mut removed = None;
+    if let Some(last) = last {
+        if r.chance(1, 2) {
+            let lo = if last == 0 && r.chance(1, 2) { 0 } else { last + 1 };
+            if lo < n {
+                let d = lo + r.below(n - lo);
+                deprecated = Some(d);
+                if r.chance(1, 2) && d + 1 < n {
+                    removed = Some(d + 1 + r.below(n - d - 1));
+                }
+            }
+        }
+    }
+    let mut h = Hist { unstable, stable, deprecated, removed };
+    if !well_formed {
+        match r.below(9) {
+            0 => h.stable.reverse(),
+            1 => {
+                if let Some(x) = h.stable.first().cloned() {
+                    h.stable.push(x)
+                }
+            }
+            2 => h.deprecated = h.stable.last().map(|(v, _)| *v),
+            3 => std::mem::swap(&mut h.deprecated, &mut h.removed),
+            4 => h.removed = h.deprecated,
+            5 => {
+                if let Some(p) = h.unstable.first_mut() {
+                    p.push_str("/:extra")
+                } else if let Some((_, p)) = h.stable.last_mut() {
+                    p.push_str("/:extra")
+                }
+            }
+            6 => {
+                if let Some((_, p)) = h.stable.last_mut() {
+                    p.push(*r.pick(&[' ', '\u{e9}', '\u{7f}', '\n']))
+                }
+            }
+            7 => {
+                h.unstable.clear();
+                h.stable.clear();
+                h.deprecated = None;
+                h.removed = None;
+            }
+            _ => {
+                h.deprecated = Some(r.below(n));
+                h.removed = Some(r.below(n));
+            }
+        }
+    }
+    h
+}
+
+const TOKENS: &[&str] = &["tok", "", "a b", "t\u{e9}", "x\ny", "x\u{7f}", "x\ty", "\u{0}", "abc.def_-~"];
+
+const SERVER_NAMES: &[&str] = &["o.example", "a", "localhost:8448", "[::1]", "[::1]:80", "1.2.3.4", "A-b.c:1", "x.y"];
+const KEY_IDS: &[&str] = &["ed25519:1", "ed25519:a_b", "ed25519:AbC09", "x:1", "ed25519:0_"];
+
+fn gen_header(r: &mut Rng) -> String {
+    // mostly the shape XMatrix Display writes, with whitespace / quoting / order / case variations,
+    // sometimes other challenges around it, sometimes broken
+    fn is_token(v: &str) -> bool {
+        !v.is_empty() && v.bytes().all(ruma_common::http_headers::is_tchar)
+    }
+    let q = |r: &mut Rng, v: &str| -> String {
+        let escaped = format!("\"{}\"", v.replace('\\', "\\\\").replace('"', "\\\""));
+        if is_token(v) {
+            match r.below(10) {
+                0..=4 => v.to_owned(),
+                5..=8 => escaped,
+                _ => format!("\"{}\"", v.chars().map(|c| if r.chance(1, 3) { format!("\\{c}") } else { c.to_string() }).collect::<String>()),
+            }
+        } else {
+            match r.below(20) {
+                0 => v.to_owned(),
+                1 => format!("\"{v}\""),
+                2 | 3 => format!("\"{}\"", v.chars().map(|c| if r.chance(1, 3) || c == '"' || c == '\\' { format!("\\{c}") } else { c.to_string() }).collect::<String>()),
+                _ => escaped,
+            }
+        }
+    };
+    let vals: &[&str] = &["o.example", "d.example:8448", "ed25519:1", "AQL//v0", "dGVzdA", "dGVzdA==", "", "a b", "x\"y", "x\\y", "[::1]", "!!", "ed25519:", "=", "a,b"];
+    let names: &[&str] = &["origin", "destination", "key", "sig", "Origin", "KEY", "sIg", "foo", "origin", "sig"];
+    let mut s = String::new();
+    if r.chance(1, 6) {
+        s.push_str(pk(r, &["Basic realm=\"x\", ", "Bearer, ", "Digest a=b,c=d, ", "Foo ,", ", "]));
+    }
+    s.push_str(pk(r, &["X-Matrix", "X-Matrix", "X-Matrix", "X-Matrix", "x-matrix", "X-MATRIX", "X-Matri", "XMatrix"]));
+    if r.chance(1, 25) {
+        s.push_str(pk(r, &["  ", "\t", ""]));
+    } else {
+        s.push(' ');
+    }
+    let n = *r.pick(&[0usize, 1, 2, 3, 3, 4, 4, 4, 4, 5]);
+    let rot = if r.chance(1, 3) { r.below(4) } else { 0 };
+    for i in 0..n {
+        if i > 0 {
+            if r.chance(1, 30) {
+                s.push_str(pk(r, &[" ", ";", ""]));
+            } else {
+                s.push_str(pk(r, &[",", ",", ",", ",", ",", ", ", ", ", " ,", ",,", ",\t"]));
+            }
+        }
+        let name = if r.chance(7, 8) { ["destination", "key", "origin", "sig"][(i + rot) % 4] } else { *r.pick(names) };
+        let name = if r.chance(1, 8) { name.to_ascii_uppercase() } else { name.to_owned() };
+        s.push_str(&name);
+        if r.chance(1, 30) {
+            s.push_str(pk(r, &["", "==", ":"]));
+        } else {
+            s.push_str(pk(r, &["=", "=", "=", "=", "=", "=", " =", "= ", " = "]));
+        }
+        let v = match name.to_ascii_lowercase().as_str() {
+            "origin" | "destination" if r.chance(7, 8) => *r.pick(SERVER_NAMES),
+            "key" if r.chance(7, 8) => *r.pick(KEY_IDS),
+            "sig" if r.chance(7, 8) => *r.pick(&["AQL//v0", "dGVzdA", "dGVzdA", "", "AA", "AQL//v0", "dGVzdA=="]),
+            _ => *r.pick(vals),
+        };
+        s.push_str(&q(r, v));
+    }
+    if r.chance(1, 12) {
+        s.push_str(pk(r, &[",", ", Basic", ", Basic realm=x", " ", "\"", ", ="]));
+    }
+    if r.chance(1, 15) && !s.is_empty() {
+        // single-byte mutation
+        let mut b = s.into_bytes();
+        let i = r.below(b.len());
+        b[i] = *r.pick(&[b'"', b'\\', b',', b'=', b' ', b'\t', 0xc3, b'a', 0x7f, b'(']);
+        s = String::from_utf8_lossy(&b).into_owned();
+    }
+    s
+}
+
+fn gen_query(r: &mut Rng) -> String {
+    let n = r.below(5);
+    let mut s = String::new();
+    for i in 0..n {
+        if i > 0 {
+            s.push_str(pk(r, &["&", "&", "&&", ";"]));
+        }
+        for _ in 0..r.below(4) {
+            s.push_str(pk(r, &["a", "b", "+", "%41", "%2", "%", "%zz", "%C3%A9", "%26", "%3D", "=", "\u{e9}", " ", "#", "*"]));
+        }
+        if r.chance(3, 4) {
+            s.push('=');
+            for _ in 0..r.below(4) {
+                s.push_str(pk(r, &["a", "1", "+", "%20", "%2B", "%", "=", "\u{e9}", "%25", "."]));
+            }
+        }
+    }
+    s
+}
+
+pub fn run(tier: &str, seed: u64, em: &mut Emitter) {
+    let thorough = tier == "thorough";
+    let all = versions();
+    let n = all.len();
+    let eps = endpoints();
+    let table = ep_table();
+    let mut r = Rng::new(seed ^ 0xC16);
+
+    // ---- systematic: select_path, every version subset x every endpoint history ----------------
+    let chunks = (1usize << n).div_ceil(CHUNK);
+    let mut hists: Vec<Hist> = eps.iter().map(|(_, m)| Hist::of(&all, &m.history)).collect();
+    // synthetic well-formed histories (removal, several stable paths) in front
+    let mut synth = vec![];
+    for _ in 0..(if thorough { 120 } else { 24 }) {
+        let h = gen_hist(&mut r, n, true);
+        if std::panic::catch_unwind(|| h.build(&all)).is_ok() {
+            synth.push(h);
+        }
+    }
+    // interleave so that the driver shards get even work
+    let mut heavy = vec![];
+    for h in synth.iter().chain(hists.iter()) {
+        for c in 0..chunks {
+            heavy.push((h.clone(), c));
+        }
+    }
+    let mut heavy_it = heavy.into_iter();
+    let mut emit_heavy = |em: &mut Emitter, k: usize| {
+        for _ in 0..k {
+            let Some((h, c)) = heavy_it.next() else { break };
+            let case = Sx::L(vec![Sx::n(1), h.sx(), Sx::n(n as i64), Sx::n(c as i64)]);
+            em.emit("systematic-select", case, op1(&all, &h, c));
+        }
+    };
+    hists.extend(synth.iter().cloned());
+
+    // ---- systematic: VersionHistory::new on every endpoint history + mutants -------------------
+    for h in &hists {
+        em.emit("systematic-new", Sx::L(vec![Sx::n(12), h.sx()]), op12(&all, h));
+    }
+    emit_heavy(em, 600);
+    for _ in 0..(if thorough { 20_000 } else { 1_500 }) {
+        let wf = r.chance(1, 3);
+        let h = gen_hist(&mut r, n, wf);
+        em.emit("random-new", Sx::L(vec![Sx::n(12), h.sx()]), op12(&all, &h));
+        // select_path on an arbitrary version list (duplicates, any order)
+        if std::panic::catch_unwind(|| h.build(&all)).is_ok() {
+            let vs = rand_versions(&mut r, n);
+            let case = Sx::L(vec![Sx::n(2), h.sx(), Sx::L(vs.iter().map(|v| Sx::n(*v as i64)).collect())]);
+            em.emit("random-select", case, op2(&all, &h, &vs));
+        }
+    }
+    emit_heavy(em, 600);
+
+    // ---- systematic: URL construction, argument strings over the hostile alphabet --------------
+    let one = Hist { unstable: vec!["/_m/x/:a/y".into()], stable: vec![(1.min(n - 1), "/_m/v1/:a".into())], deprecated: None, removed: None };
+    let two = Hist { unstable: vec![], stable: vec![(0, "/_m/:a/z/:b".into())], deprecated: None, removed: None };
+    let emit3 = |em: &mut Emitter, h: &Hist, vs: &[usize], base: &str, args: &[String], q: &str| {
+        let case = Sx::L(vec![
+            Sx::n(3),
+            h.sx(),
+            Sx::L(vs.iter().map(|v| Sx::n(*v as i64)).collect()),
+            Sx::s(base),
+            Sx::L(args.iter().map(|a| Sx::s(a)).collect()),
+            Sx::s(q),
+        ]);
+        em.emit("systematic-url", case, op3(&all, h, vs, base, args, q));
+    };
+    for s in hostile_strings(if thorough { 5 } else { 3 }) {
+        emit3(em, &one, &[0], BASE, &[s.clone()], "");
+    }
+    for b in 0u8..128 {
+        emit3(em, &one, &[n - 1], "", &[(b as char).to_string()], "q=1");
+    }
+    let hs2 = hostile_strings(2);
+    for a in &hs2 {
+        for b in hs2.iter().step_by(if thorough { 1 } else { 7 }) {
+            emit3(em, &two, &[0], "https://h/", &[a.clone(), b.clone()], "k=v&k=w");
+        }
+    }
+    emit_heavy(em, 600);
+    for i in 0..(if thorough { 30_000 } else { 2_500 }) {
+        let (_, m) = &eps[i % eps.len()];
+        let h = if r.chance(3, 4) { Hist::of(&all, &m.history) } else { gen_hist(&mut r, n, true) };
+        let nargs = h.all_paths().first().map_or(0, |p| p.split('/').filter(|s| s.starts_with(':')).count());
+        let k = match r.below(10) {
+            0 => nargs.saturating_sub(1),
+            1 => nargs + 1,
+            _ => nargs,
+        };
+        let args: Vec<String> = (0..k).map(|_| rand_hostile(&mut r, 4)).collect();
+        let vs = rand_versions(&mut r, n);
+        let base = *r.pick(&["", "/", "https://h.example", "https://h.example/", "https://h.example//", "http://h/x"]);
+        let q = if r.chance(1, 2) { String::new() } else { gen_query(&mut r) };
+        let case = Sx::L(vec![
+            Sx::n(3),
+            h.sx(),
+            Sx::L(vs.iter().map(|v| Sx::n(*v as i64)).collect()),
+            Sx::s(base),
+            Sx::L(args.iter().map(|a| Sx::s(a)).collect()),
+            Sx::s(&q),
+        ]);
+        em.emit("random-url", case, op3(&all, &h, &vs, base, &args, &q));
+    }
+    emit_heavy(em, 600);
+
+    // ---- query layer ---------------------------------------------------------------------------
+    let hs = hostile_strings(2);
+    for k in hs.iter().step_by(if thorough { 1 } else { 3 }) {
+        for v in hs.iter().step_by(if thorough { 1 } else { 5 }) {
+            let p = vec![(k.clone(), v.clone())];
+            em.emit("systematic-query", Sx::L(vec![Sx::n(5), pairs_sx(&p)]), op5(&p));
+        }
+    }
+    for _ in 0..(if thorough { 30_000 } else { 2_500 }) {
+        let np = r.below(4);
+        let keys = ["k", "", "a b", "k", "\u{e9}", "&", "="];
+        let p: Vec<(String, String)> = (0..np)
+            .map(|_| (if r.chance(1, 2) { (*r.pick(&keys)).to_owned() } else { rand_hostile(&mut r, 3) }, rand_hostile(&mut r, 4)))
+            .collect();
+        em.emit("random-query", Sx::L(vec![Sx::n(5), pairs_sx(&p)]), op5(&p));
+        let q = gen_query(&mut r);
+        if query_lossless(&q) {
+            em.emit("random-query-parse", Sx::L(vec![Sx::n(6), Sx::s(&q)]), op6(&q));
+        }
+    }
+    emit_heavy(em, 600);
+
+    // ---- authorization header: schemes x token variants x tokens (exhaustive) -------------------
+    for s in 0..6 {
+        for v in 0..4 {
+            for t in TOKENS {
+                em.emit("systematic-auth", Sx::L(vec![Sx::n(7), Sx::n(s), Sx::n(v), Sx::s(t)]), op7(s as usize, v as usize, t));
+            }
+        }
+    }
+
+    // ---- X-Matrix ------------------------------------------------------------------------------
+    let sigs: Vec<Vec<u8>> = vec![vec![], vec![0], vec![255, 254], vec![1, 2, 255, 254, 253], b"test".to_vec(), vec![251, 239, 190], (0..64).collect()];
+    for o in SERVER_NAMES {
+        for k in KEY_IDS {
+            for (i, sg) in sigs.iter().enumerate() {
+                let d = if i % 2 == 0 { Some(SERVER_NAMES[(i + 1) % SERVER_NAMES.len()]) } else { None };
+                if let Some((out, oracle)) = op8(o, d, k, sg) {
+                    let case = Sx::L(vec![Sx::n(8), Sx::s(o), Sx::opt(d.map(Sx::s)), Sx::s(k), Sx::S(sg.clone()), oracle]);
+                    em.emit("systematic-xmatrix", case, out);
+                }
+            }
+        }
+    }
+    for _ in 0..(if thorough { 20_000 } else { 2_000 }) {
+        let sg: Vec<u8> = (0..r.below(40)).map(|_| r.next() as u8).collect();
+        let (o, k) = (*r.pick(SERVER_NAMES), *r.pick(KEY_IDS));
+        let d = if r.chance(1, 2) { Some(*r.pick(SERVER_NAMES)) } else { None };
+        if let Some((out, oracle)) = op8(o, d, k, &sg) {
+            let case = Sx::L(vec![Sx::n(8), Sx::s(o), Sx::opt(d.map(Sx::s)), Sx::s(k), Sx::S(sg), oracle]);
+            em.emit("random-xmatrix", case, out);
+        }
+    }
+    emit_heavy(em, 600);
+    for _ in 0..(if thorough { 60_000 } else { 6_000 }) {
+        let h = gen_header(&mut r);
+        em.emit("random-challenge", Sx::L(vec![Sx::n(10), Sx::s(&h)]), op10(&h));
+        em.emit("random-xmatrix-parse", Sx::L(vec![Sx::n(9), Sx::s(&h), xm_oracle(&h)]), op9(&h));
+    }
+    emit_heavy(em, 600);
+
+    // ---- generated conversions: synthetic endpoints (every field kind) and real endpoints -------
+    let mut short = hostile_strings(1);
+    short.push("-".to_owned()); // absent optional field
+    short.push("a,,b".to_owned()); // list field with an empty element
+    for ep in &table {
+        let meta = (ep.meta)();
+        let h = Hist::of(&all, &meta.history);
+        let mut value_sets: Vec<Vec<String>> = vec![];
+        // each value position in turn takes every 1-character hostile string (and the empty string)
+        for pos in 0..ep.nvals {
+            for s in &short {
+                let mut v: Vec<String> = (0..ep.nvals).map(|i| format!("v{i}")).collect();
+                v[pos] = s.clone();
+                value_sets.push(v);
+            }
+        }
+        let synthetic = ep.name.starts_with("synthetic");
+        let nrand = match (thorough, synthetic) {
+            (true, true) => 3000,
+            (true, false) => 300,
+            (false, true) => 250,
+            (false, false) => 25,
+        };
+        for _ in 0..nrand {
+            value_sets.push((0..ep.nvals).map(|_| if r.chance(1, 6) { "-".to_owned() } else { rand_hostile(&mut r, 4) }).collect());
+        }
+        value_sets.push((0..ep.nvals).map(|_| "-".to_owned()).collect());
+        if ep.nvals == 0 {
+            value_sets.push(vec![]);
+        }
+        for vals in value_sets {
+            // versions: mostly all / newest / oldest, sometimes a random list
+            let vs: Vec<usize> = match r.below(5) {
+                0 => vec![0],
+                1 => vec![n - 1],
+                2 => rand_versions(&mut r, n),
+                _ => (0..n).collect(),
+            };
+            let _ = &h;
+            let variant = if r.chance(3, 4) { 1 } else { r.below(4) };
+            let token = if r.chance(7, 8) { "tok" } else { *r.pick(TOKENS) };
+            for dir in 0..2 {
+                if let Some(out) = op11(&table, &all, ep.name, dir, &vals, &vs, variant, token) {
+                    let tag = match (synthetic, dir) {
+                        (true, 0) => "synthetic-request",
+                        (true, _) => "synthetic-response",
+                        (false, 0) => "real-request",
+                        (false, _) => "real-response",
+                    };
+                    em.emit(tag, case11(ep, &all, dir, &vals, &vs, variant, token), out);
+                }
+            }
+        }
+        emit_heavy(em, 120);
+    }
+    emit_heavy(em, usize::MAX);
+}
